@@ -2,6 +2,7 @@ import QeepProps.C08
 import QeepProps.C03
 import QeepProofs.Vals
 import QeepProofs.BcastSum
+import QeepProofs.BcastCopies
 /-!
 # C07 — the gradient of a broadcast operand is the sum over its expanded copies
 
@@ -20,6 +21,9 @@ real code equals the `mean` instance on every program.
   gradient over every position `idx` was copied to (`copiesSum`: extra leading dims and expanded size-1 dims run over
   their whole range, unexpanded dims are fixed to `idx`'s coordinate) — nested in the order the code adds, so the
   statement is exact for any scalar type.
+* `bcast_rule_sum_real` — over ℝ the iterated sum is the unordered sum over the duplicate-free list `copies` of exactly
+  the target positions that project to `idx`; `broadcast_fills_from_projection` is the matching forward statement;
+  `dot_routes_through_broadcast`, `matmul_routes_through_broadcast`: Dot and MatMul expansions carry the same rule.
 * `broadcast_node_rule` — the same for the back edge of an actual `Broadcast` result in a heap (the validator hypothesis
   is discharged by the forward call having succeeded).
 -/
@@ -93,6 +97,94 @@ theorem arith_routes_through_broadcast (o : Arith) (a b : Nat) (H H' : Heap α) 
   refine ⟨a1, b1, Ha, Hb, _, g1, g2, ca, cb, _, cr, ?_⟩
   cases o <;> rfl
 
+/-- both broadcasting helpers (`broadcastForBinaryOp`, `broadcastForMatMul`): each operand goes through the public
+    `Broadcast`, whose result carries the `Broadcast` rule as its only back edge -/
+theorem pair_routes {a b : Nat} {s1 s2 : Heap α → List Int} {H H' : Heap α} {a' b' : Nat}
+    (h : (do let H ← getHeap; let a' ← hBroadcast a (s1 H); let b' ← hBroadcast b (s2 H); pure (a', b') : HM α (Nat × Nat)) H
+        = .ok ((a', b'), H')) :
+    ∃ Ha, hBroadcast a (s1 H) H = .ok (a', Ha) ∧ hBroadcast b (s2 H) Ha = .ok (b', H') ∧
+      Ha.ctx a' = mkCtx H [a] [⟨a, .bcastX a a'⟩] ∧ H'.ctx b' = mkCtx Ha [b] [⟨b, .bcastX b b'⟩] := by
+  obtain ⟨H0, H0', g0, k1⟩ := bind_ok h
+  obtain ⟨e0, e0'⟩ := getHeap_ok g0
+  rw [e0, e0'] at k1
+  obtain ⟨a1, Ha, g1, k2⟩ := bind_ok k1
+  obtain ⟨b1, Hb, g2, k3⟩ := bind_ok k2
+  have hp : (pure (a1, b1) : HM α (Nat × Nat)) Hb = .ok ((a1, b1), Hb) := rfl
+  rw [hp] at k3
+  injection k3 with k3
+  injection k3 with e1 e2
+  injection e1 with ea eb
+  subst ea eb e2
+  have ca : Ha.ctx a1 = mkCtx H [a] [⟨a, .bcastX a a1⟩] := by
+    have g1' := g1
+    unfold hBroadcast at g1'
+    obtain ⟨Hx, Hx', gx, kx⟩ := bind_ok g1'
+    obtain ⟨ex, ex'⟩ := getHeap_ok gx
+    rw [ex, ex'] at kx
+    obtain ⟨er, ec, _⟩ := C08.op1_ctx a _ _ H Ha a1 kx
+    rw [ec, er]
+  have cb : Hb.ctx b1 = mkCtx Ha [b] [⟨b, .bcastX b b1⟩] := by
+    have g2' := g2
+    unfold hBroadcast at g2'
+    obtain ⟨Hx, Hx', gx, kx⟩ := bind_ok g2'
+    obtain ⟨ex, ex'⟩ := getHeap_ok gx
+    rw [ex, ex'] at kx
+    obtain ⟨er, ec, _⟩ := C08.op1_ctx b _ _ Ha Hb b1 kx
+    rw [ec, er]
+  exact ⟨Ha, g1, g2, ca, cb⟩
+
+/-- **Dot expands its operands through `Broadcast`**: the result's back edges target the two broadcast results -/
+theorem dot_routes_through_broadcast (a b : Nat) (H H' : Heap α) (r : Nat) (h : hDot a b H = .ok (r, H')) :
+    ∃ a' b' Ha Hb sa sb,
+      hBroadcast a sa H = .ok (a', Ha) ∧ hBroadcast b sb Ha = .ok (b', Hb) ∧
+      Ha.ctx a' = mkCtx H [a] [⟨a, .bcastX a a'⟩] ∧ Hb.ctx b' = mkCtx Ha [b] [⟨b, .bcastX b b'⟩] ∧
+      H'.ctx r = mkCtx Hb [a', b'] [⟨a', .dotG b'⟩, ⟨b', .dotG a'⟩] := by
+  unfold hDot at h
+  obtain ⟨H0, H0', g0, k1⟩ := bind_ok h
+  obtain ⟨e0, e0'⟩ := getHeap_ok g0
+  rw [e0, e0'] at k1
+  split at k1
+  · obtain ⟨p, H1, h1, h2⟩ := bind_ok k1
+    obtain ⟨a', b'⟩ := p
+    obtain ⟨Ha, g1, g2, ca, cb⟩ := pair_routes
+      (s1 := fun H => (targetBroadcastDims (H.val a).dims (H.val b).dims).map Int.ofNat)
+      (s2 := fun H => (targetBroadcastDims (H.val a).dims (H.val b).dims).map Int.ofNat) h1
+    obtain ⟨H3, H3', g3, k4⟩ := bind_ok h2
+    obtain ⟨e3, e3'⟩ := getHeap_ok g3
+    rw [e3, e3'] at k4
+    obtain ⟨t, H4, g4, k5⟩ := bind_ok k4
+    obtain ⟨_, e4'⟩ := liftOut_ok g4
+    rw [e4'] at k5
+    obtain ⟨_, _, cr, _⟩ := alloc_ok k5
+    exact ⟨a', b', Ha, H1, _, _, g1, g2, ca, cb, cr⟩
+  · simp [liftOut, Out.bind] at k1
+
+/-- **MatMul expands its operands through `Broadcast`** (batch dims) -/
+theorem matmul_routes_through_broadcast (a b : Nat) (H H' : Heap α) (r : Nat) (h : hMatMul a b H = .ok (r, H')) :
+    ∃ a' b' Ha Hb sa sb,
+      hBroadcast a sa H = .ok (a', Ha) ∧ hBroadcast b sb Ha = .ok (b', Hb) ∧
+      Ha.ctx a' = mkCtx H [a] [⟨a, .bcastX a a'⟩] ∧ Hb.ctx b' = mkCtx Ha [b] [⟨b, .bcastX b b'⟩] ∧
+      H'.ctx r = mkCtx Hb [a', b'] [⟨a', .matmulA b'⟩, ⟨b', .matmulB a'⟩] := by
+  unfold hMatMul at h
+  obtain ⟨H0, H0', g0, k1⟩ := bind_ok h
+  obtain ⟨e0, e0'⟩ := getHeap_ok g0
+  rw [e0, e0'] at k1
+  split at k1
+  · obtain ⟨p, H1, h1, h2⟩ := bind_ok k1
+    obtain ⟨a', b'⟩ := p
+    obtain ⟨Ha, g1, g2, ca, cb⟩ := pair_routes
+      (s1 := fun H => (matMulShape (targetBroadcastDims (H.val a).dims (H.val b).dims) (H.val a).dims).map Int.ofNat)
+      (s2 := fun H => (matMulShape (targetBroadcastDims (H.val a).dims (H.val b).dims) (H.val b).dims).map Int.ofNat) h1
+    obtain ⟨H3, H3', g3, k4⟩ := bind_ok h2
+    obtain ⟨e3, e3'⟩ := getHeap_ok g3
+    rw [e3, e3'] at k4
+    obtain ⟨t, H4, g4, k5⟩ := bind_ok k4
+    obtain ⟨_, e4'⟩ := liftOut_ok g4
+    rw [e4'] at k5
+    obtain ⟨_, _, cr, _⟩ := alloc_ok k5
+    exact ⟨a', b', Ha, H1, _, _, g1, g2, ca, cb, cr⟩
+  · simp [liftOut, Out.bind] at k1
+
 /-- **The `Broadcast` backward rule in `sum` mode is the sum over the expanded copies** — every accepted shape pair,
     every well-formed upstream gradient of the target shape. -/
 theorem bcast_rule_sum_is_sum_over_copies (H : Heap α) (x y : Nat) (gy : Tensor α) (hwf : gy.WF)
@@ -124,6 +216,29 @@ theorem broadcast_node_rule (x : Nat) (shape : List Int) (H H' : Heap α) (y : N
   have := bcast_rule_sum_is_sum_over_copies H' x y gy hwf hd (by rw [hvx, hyd]; exact hvalid.2)
   rw [hvx, hyd] at this
   exact this
+
+/-- **Over the reals: the gradient delivered to element `idx` of the operand is the sum of the upstream gradient over
+    exactly the positions that element was copied to.** `copies` has no duplicates and contains precisely the valid
+    target positions whose projection (`projBE`: drop the extra leading coordinates, expanded coordinates → 0) is `idx`;
+    `broadcast_fills_from_projection` says the forward `Broadcast` fills position `j` from element `projBE … j`. -/
+theorem bcast_rule_sum_real (H : Heap ℝ) (x y : Nat) (gy : Tensor ℝ) (hwf : gy.WF)
+    (hd : gy.dims = (H.val y).dims) (hv : validBroadcast (H.val x).dims (H.val y).dims = true) :
+    ∃ g, evalRule .sum H gy (.bcastX x y) = .ok g ∧ g.WF ∧ g.dims = (H.val x).dims ∧
+      (∀ idx, Valid (H.val x).dims idx →
+        g.el idx = ((copies (H.val x).dims (H.val y).dims idx).map gy.el).sum ∧
+        (copies (H.val x).dims (H.val y).dims idx).Nodup ∧
+        ∀ j, j ∈ copies (H.val x).dims (H.val y).dims idx ↔
+          Valid (H.val y).dims j ∧ projBE (H.val x).dims (H.val y).dims j = idx) := by
+  obtain ⟨g, h1, h2, h3, h4⟩ := bcast_rule_sum_is_sum_over_copies H x y gy hwf hd hv
+  refine ⟨g, h1, h2, h3, ?_⟩
+  intro idx hi
+  exact ⟨by rw [h4 idx hi, copiesSum_real], copies_nodup _ _ _, fun j => mem_copies hv idx hi j⟩
+
+/-- the forward side: `Broadcast` fills target position `j` from the operand's element `projBE src dst j` -/
+theorem broadcast_fills_from_projection (x : Tensor ℝ) (hwf : x.WF) (dst : List Nat) (hpos : ∀ h ∈ dst, 0 < h)
+    (hv : validBroadcast x.dims dst = true) :
+    ∃ y, x.broadcastRaw dst = some y ∧ y.dims = dst ∧ y.WF ∧ ∀ j, Valid dst j → y.at? j = x.at? (projBE x.dims dst j) :=
+  broadcast_el x hwf dst hpos hv
 
 /-- non-vacuity and a reading of `copiesSum`: `[2] → [3,2]`, element 1 receives gy[0][1] + gy[1][1] + gy[2][1] -/
 example : copiesSum [2] [3, 2] [1] (⟨[3, 2], [1, 10, 2, 20, 3, 30]⟩ : Tensor Int) = 60 := by decide
